@@ -50,4 +50,16 @@ PROPS = {
                     'contracts of compio-buf views (common/buf.vrs) are assumed here and discharged by check C10'],
         'assumptions': [],
     },
+    'C06': {
+        'level': 'model_checking',
+        'kani': ['driver'],
+        'explanation': 'Bounded Kani check (never counted as proved) of the SharedFd protocol on the real compio-driver crate '
+                       '(unsync build): the descriptor is a token whose Drop counts; for <= 3 other holders and every release '
+                       'order: closed exactly once, never while another holder exists, take() completes at the first poll '
+                       'after the last release and not before, the registered waker fires at the last release, a second '
+                       'concurrent close is refused without stranding the first, a cancelled close neither closes early nor leaks.',
+        'trusted': ['A9 bounds as printed per harness; single thread (the `sync` feature / cross-thread releases are NOT covered); '
+                    'descriptor-producing operations (accept/open/socket/pipe) and cancel-vs-completion races are NOT covered (kernel side)'],
+        'assumptions': ['partial: only the in-process reference-count/waker protocol of SharedFd is under contract'],
+    },
 }
